@@ -63,3 +63,6 @@ Proof.
   pose proof (INR_fact_lt_0 (S d)). pose proof (pow_le (Rabs ku) (S d) (Rabs_pos ku)).
   apply Rmult_le_pos; [assumption | apply Rlt_le, Rinv_0_lt_compat; assumption].
 Qed.
+
+Lemma range_example_gl3 : range_check_big 106 gl3_xs gl3_ws = true.
+Proof. vm_compute. reflexivity. Qed.
